@@ -43,11 +43,11 @@ def run_spec(V, label, c, emit=True, coverage=False):
 def make_dataset(folder, rng, nrows, multivalue=True):
     os.makedirs(folder, exist_ok=True)
     with open(os.path.join(folder, 'data.csv'), 'w', encoding='utf-8') as f:
-        f.write('f0,f1,f2,m,zz,label\n')
+        f.write('f0,f1,f2,m,zz,hc,label\n')      # hc: more distinct values per batch than any subsampling budget
         for i in range(nrows):
             t = rng.randrange(2)
             mv = rng.choice(['a,b', 'b', 'a-c', '', 'c,b,a', 'b-d'])
-            f.write(f'{t ^ (rng.random() < 0.2)},{rng.randrange(5)},{rng.randrange(40)},"{mv}",{(t + rng.randrange(3)) % 4},{t}\n')
+            f.write(f'{t ^ (rng.random() < 0.2)},{rng.randrange(5)},{rng.randrange(40)},"{mv}",{(t + rng.randrange(3)) % 4},u{rng.randrange(5000)},{t}\n')
 
 
 def main():
@@ -70,7 +70,7 @@ def main():
     frame_rows = 60
     base = [rng.randrange(2) for _ in range(frame_rows)]
     frame_all = {'label': [str(v) for v in base], 'a': [str(v ^ (rng.random() < 0.25)) for v in base], 'labelx': [rng.choice(['x', 'y', 'z', '']) for _ in base],
-                 'zeta': [str((v + rng.randrange(3)) % 5) for v in base], 'zz': [rng.choice(['é', 'e']) for _ in base]}
+                 'zeta': [f'u{rng.randrange(200)}' for v in base], 'zz': [rng.choice(['é', 'e']) for _ in base]}
     for label, c in specs:
         res, scheds = run_spec(V, f'RankGraph/{label}', c, coverage=(label == 'amap-W2-4tasks'))
         if not scheds:
@@ -191,4 +191,9 @@ if __name__ == '__main__':
         sys.exit(main())
     except E.MachineryError as e:
         print(f'MACHINERY-FAILURE {PID}: {e}', file=sys.stderr)
+        sys.exit(2)
+    except Exception as e:  # unexpected harness error: machinery failure, never a verdict
+        import traceback
+        traceback.print_exc()
+        print(f'MACHINERY-FAILURE {PID}: unexpected {type(e).__name__}: {e}', file=sys.stderr)
         sys.exit(2)
